@@ -2,7 +2,7 @@
    all the assumed raft safety properties), with at most a minority of nodes down at every step. Witnesses closed by
    vm_compute. Each defect was first reproduced on the real code by the harness (see props/C05/NOTES.md). *)
 From Coq Require Import List Arith NArith ZArith Bool Lia.
-From OG Require Import C05.Model C05.Trunc C05.Catchup C05.ReadPath C05.RestartRace.
+From OG Require Import C05.Model C05.Trunc C05.Catchup C05.ReadPath C05.RestartRace C05.TruncPM.
 Import ListNotations.
 
 (* every prefix of the trace keeps a majority available *)
@@ -202,3 +202,33 @@ Theorem replay_after_newer_entries_refuted :
     get (ents_store (firstn 2 (elog x))) 1%N = Some 11%Z /\
     get (view (replay_then_apply c n x es)) 1%N = Some 11%Z.
 Proof. exists (cfg_today 3 2), 1, race_node, [EData 0 2%N [(1%N, 11%Z)]]. vm_compute. repeat split. Qed.
+
+(* (8b) the same state seen through the weakest rule: the member today's election picks does NOT cover the acknowledged
+   overwrite (covers_acks = false) and answers stale; an election among covering members picks member 2, which answers 11 *)
+Theorem master_not_covering_acks_refuted :
+  exists es s, run raft_ref (init (cfg_repaired 3 2)) es = Some s /\
+    elect_today s = Some (1, [0; 2]) /\ covers_acks s 1 = false /\ read s 1 1%N = Some 10%Z /\
+    elect_covering s = Some (2, [1; 0]) /\ read s 2 1%N = Some 11%Z.
+Proof. exists lagmaster_trace. eexists. vm_compute. repeat split. Qed.
+
+(* (10) when the forced branch can still strand a member with the repaired timer (today's code): the timer is per GROUP.
+   Member 1 is down for six hours; it comes back and member 2 goes down between two rounds - no round sees the group
+   healthy, the timer runs on, and the next round gives up member 2's entries although member 2 was alive two minutes
+   before (its Match 90 is below the forced index 95). *)
+Definition handover_rounds : list round :=
+  map (fun t => mkRound t true [true; false; true] [100%N; 40%N; 100%N] 95%N) [0; 60; 120; 180; 240; 300; 359]%Z.
+Definition handover_last : round := mkRound 361 true [true; true; false] [100%N; 100%N; 90%N] 95%N.
+
+Theorem group_timer_gives_up_recently_alive_member_refuted :
+  exists T L pre r idx q j, clock_mono (pre ++ [r]) /\ snap_stays (pre ++ [r]) /\
+    snd (decide tcfg_repaired T L (tstate tcfg_repaired T L None pre) r) = DForce idx /\
+    In q pre /\ nth j (r_alive q) true = true /\ nth j (r_alive r) true = false /\ (r_now r - r_now q <= T)%Z /\
+    (nth j (r_match r) 0 < idx)%N.
+Proof.
+  exists 360%Z, (mkLay 30000 1 100), handover_rounds, handover_last, 95%N,
+         (mkRound 359 true [true; false; true] [100%N; 40%N; 100%N] 95%N), 2.
+  split; [|split; [|split; [vm_compute; reflexivity|split; [|split; [reflexivity|split; [reflexivity|split; [vm_compute; discriminate|vm_compute; reflexivity]]]]]]].
+  - cbn. repeat split; intros x Hx; cbn in Hx; repeat (destruct Hx as [<-|Hx]; [cbn; lia|]); contradiction.
+  - cbn. repeat split; intros _ x Hx; cbn in Hx; repeat (destruct Hx as [<-|Hx]; [cbn; discriminate|]); contradiction.
+  - unfold handover_rounds. cbn. do 6 right. left. reflexivity.
+Qed.
